@@ -40,6 +40,9 @@ CH["C20"] = dict(level="exploration", design="3/C20", technique="deterministic s
 CH["C13"] = dict(level="exploration", design="3/C13", technique="deterministic simulation: client and server Conn through the real handshake on a sim transport, 4 scheduled tasks, seeded API/size/buffer/compression configuration swarm, reference RFC 6455/7692 parser on the recorded wire",
    text="Seeded search over message sequences x write API x read API x role x compression negotiation/level/toggling x buffer sizes x subprotocols x transport segmentation x schedules. Oracles: per direction the received (type, payload) sequence equals the written one; every byte after the handshake parses under an independent strict RFC 6455/7692 frame parser (opcode, FIN/continuation sequencing, masking by role, minimal length form, control-frame rules, RSV1 only on the first frame of a compressed message, inflate reproduces the payload); handshake lines re-derived independently (101, Sec-WebSocket-Accept, extension/subprotocol only if offered). Sampling, not proof.",
    note="Trusted: reference frame parser/inflater (ref/ws.go, compress/flate), net/http for parsing the recorded handshake.")
+CH["C14"] = dict(level="exploration", design="3/C14", technique="deterministic simulation: real reader endpoint (either role, real handshake) against a reference frame-encoder stub over a sim transport with cuts and segmentation; RFC 6455 receiver state machine as model",
+   text="Seeded search over frame sequences (random over the abstract alphabet opcode x FIN x RSV x mask x length form incl. 2^31, 2^63-1, 2^63, 2^64-1, and valid conversations with one injected oddity) x role x read limit relative to sizes x cut at any offset x read segmentation x buffer size x read API. Oracle: delivered messages equal the model's up to the first violation; there the read fails, stays failed with the same error, and the endpoint's recorded replies parse as pongs (identical payloads, in order) followed by exactly one Close 1002; top-bit lengths never deliver anything; limit breaches give ErrReadLimit under any fragmentation; cuts end in an error. Sampling, not proof.",
+   note="Trusted: reference encoder/parser, the receiver model (unbounded-integer accounting). Deliberately not demanded: limit-breach status code, 1-byte close body, codes 1012-1014, text UTF-8 validation.")
 def main():
     import os
     extra = {}
